@@ -77,9 +77,9 @@ func writePkg(root string, rel, name string, files [][]string) {
 // the identifier a package is referred to by (its package name)
 func pkgIdent(im string) string {
 	switch im {
-	case "github.com/goose-lang/goose/machine/disk":
+	case "github.com/goose-lang/goose/machine/disk", "github.com/goose-lang/primitive/disk":
 		return "disk"
-	case "github.com/goose-lang/goose/machine/async_disk":
+	case "github.com/goose-lang/goose/machine/async_disk", "github.com/goose-lang/primitive/async_disk":
 		return "async_disk"
 	case "github.com/mit-pdos/gokv/grove_ffi":
 		return "grove_ffi"
@@ -94,7 +94,8 @@ func pkgNameOf(im string) string {
 
 func exported(im string) string {
 	switch im {
-	case "github.com/goose-lang/goose/machine/disk", "github.com/goose-lang/goose/machine/async_disk":
+	case "github.com/goose-lang/goose/machine/disk", "github.com/goose-lang/goose/machine/async_disk",
+		"github.com/goose-lang/primitive/disk", "github.com/goose-lang/primitive/async_disk":
 		return "BlockSize"
 	case "github.com/mit-pdos/gokv/grove_ffi":
 		return "Const"
@@ -112,6 +113,9 @@ func main() {
 	defer w.Flush()
 	master := rng.New(*seed)
 	ffis := []string{"github.com/goose-lang/goose/machine/disk", "github.com/goose-lang/goose/machine/async_disk", "github.com/mit-pdos/gokv/grove_ffi"}
+	// the helper packages may also import the other variant of an FFI (the one in
+	// github.com/goose-lang/primitive): two packages, one FFI
+	libFfis := append(append([]string{}, ffis...), "github.com/goose-lang/primitive/disk", "github.com/goose-lang/primitive/async_disk")
 	for c := 0; c < *n; c++ {
 		r := master.Fork()
 		root, err := os.MkdirTemp("", "verif-hdr-")
@@ -132,7 +136,7 @@ func main() {
 		for i, l := range libs {
 			var imps []string
 			if r.Intn(3) == 0 {
-				imps = append(imps, rng.Pick(r, ffis)) // an FFI reached transitively
+				imps = append(imps, rng.Pick(r, libFfis)) // an FFI reached transitively
 			}
 			if i > 0 && r.Intn(3) == 0 {
 				imps = append(imps, modName+"/"+libs[r.Intn(i)]) // a chain of plain packages
